@@ -348,6 +348,24 @@ def _exec_case(c):
             return ("ok", sols, nv.stats_list(s_))
         except (IndexError, OverflowError, ValueError) as e:
             return ("err", type(e).__name__, None)
+    if c["op"] == "alias_params":
+        # heuristic parameters handed over as an int64 ndarray that the caller re-uses afterwards: the solver must have taken its own
+        # copy (c["overwrite"]: the buffer is overwritten with other costs right after construction, before solving)
+        import numpy as np
+        from nucs.solvers.backtrack_solver import BacktrackSolver
+
+        try:
+            costs = np.array(c["costs"], dtype=np.int64)
+            buf = costs.copy()
+            s_ = BacktrackSolver(prob.build(), consistency_alg_idx=nv.registry_index("cons", nv.CONS_ALGS[cfg.cons]),
+                                 var_heuristic_idx=nv.registry_index("var", nv.VAR_HEURS[3]), var_heuristic_params=buf,
+                                 dom_heuristic_idx=nv.registry_index("dom", nv.DOM_HEURS[4]), dom_heuristic_params=buf, log_level="ERROR")
+            if c.get("overwrite"):
+                buf[:, :] = buf[:, ::-1].copy() + 1
+            sols = [[int(x) for x in s] for s in s_.solve()]
+            return ("ok", sols, nv.stats_list(s_))
+        except (IndexError, OverflowError, ValueError) as e:
+            return ("err", type(e).__name__, None)
     if c["op"] == "split_solve":
         # Problem.split (public API) on a problem object that was — or was not — used by an earlier solver: the parts must mean the same
         try:
